@@ -139,6 +139,20 @@ def run(index, rep, tier):
             rep.check(li < ni, "R02.5", lk.qualname, "labels consulted after taxon numbers: %s" % order, fn_where(lk), "labels are consulted before taxon numbers",
                       "NexusTaxonSymbolMapper.lookup_taxon_symbol consults %s: the writer emits LABELS when no TRANSLATE table is used, so a taxon whose label is a digit string (label '2' held by the first taxon) must be found by label before the digits are read as a position; with numbers first such trees re-read with their taxa silently permuted" % order)
 
+    # ---- R02.5 TRANSLATE labels are labels
+    with rep.section("R02.5 TRANSLATE labels are labels"):
+        pt = index.function("dendropy.dataio.nexusreader.NexusReader._parse_translate_statement")
+        adds = [c for c in calls_in(pt.node) if call_name(c) == "add_translate_token" and len(c.args) >= 2]
+        if not adds:
+            raise AnalysisError("R02.5: _parse_translate_statement no longer calls add_translate_token")
+        for c in adds:
+            tv = c.args[1]
+            defs = [d for d in walk_no_nested(pt.node) if isinstance(d, ast.Assign) and isinstance(tv, ast.Name) and norm(d.targets[0]) == tv.id]
+            srcs = sorted({call_name(d.value) if isinstance(d.value, ast.Call) else norm(d.value)[:30] for d in defs})
+            ok = bool(defs) and all(isinstance(d.value, ast.Call) and call_name(d.value) in ("require_taxon", "get_taxon", "new_taxon") and get_kwarg(d.value, "label") is not None for d in defs)
+            rep.check(ok, "R02.5", pt.qualname, "TRANSLATE label resolved through %s" % srcs, fn_where(pt, c), "the label side of a TRANSLATE entry is resolved as a label in the namespace (%s)" % srcs,
+                      "_parse_translate_statement resolves the LABEL of a TRANSLATE entry through %s: the symbol look-up tries earlier TRANSLATE tokens (and taxon numbers) before labels, so a taxon whose label equals the token of an earlier entry ('1', '2' ...) is bound to that earlier taxon and translated trees come back with their taxa permuted" % srcs)
+
     # ---- R02.2
     with rep.section("R02.2"):
         qc = cfgd["quote_chars"]
@@ -243,18 +257,19 @@ def run(index, rep, tier):
         if len(res) != 1:
             raise AnalysisError("R02.7: resolution of is_internal_node=None not recognised")
         out = {}
-        for kids in (True, False):
-            d = Decision(facts={"current_node._child_nodes": kids}, values={"is_internal_node": None})
+        for kids in (0, 1, 2, 3):
+            d = Decision(facts={"current_node._child_nodes": kids > 0}, values={"is_internal_node": None, "len(current_node._child_nodes)": kids})
             d.run(res)
             if "is_internal_node" in d.env:
                 out[kids] = d.env["is_internal_node"]
             elif "is_internal_node" in d.exprs:
                 e = d.exprs["is_internal_node"]
-                out[kids] = kids if norm(e) in ("bool(current_node._child_nodes)", "current_node._child_nodes") else "?"
+                out[kids] = (kids > 0) if norm(e) in ("bool(current_node._child_nodes)", "current_node._child_nodes") else "?"
             else:
                 out[kids] = None
-        rep.check(out.get(True) is True and out.get(False) in (None, False), "R02.7", nd.qualname, "None resolved to %s" % out, fn_where(nd, res[0]), "None -> internal iff children were built",
-                  "_parse_tree_node_description resolves is_internal_node=None to %s (children built -> %s, no children -> %s): a single-node tree must be treated as a leaf" % (out, out.get(True), out.get(False)))
+        okr = out.get(0) in (None, False) and all(out.get(k) is True for k in (1, 2, 3))
+        rep.check(okr, "R02.7", nd.qualname, "None resolved to %s" % out, fn_where(nd, res[0]), "None -> internal iff at least one child was built",
+                  "_parse_tree_node_description resolves is_internal_node=None to %s (number of children built -> result): a node is internal as soon as ONE child was parsed and a leaf only when none was - otherwise a single-node tree loses its taxon, or the label of a root with exactly one child is turned into a spurious taxon" % out)
 
     # ---- R02.6
     with rep.section("R02.6"):
